@@ -473,11 +473,6 @@ pub fn check_bridge_session(c: &BridgeSession, st: &mut Stats) -> Result<(), Str
         let n = n.max(2) as usize;
         pstate.read_script = (0..6000).map(|i| if i % n == n - 1 { crate::io::port::ReadStep::Interrupted } else { crate::io::port::ReadStep::Serve(3) }).collect();
     }
-    if let Some(k) = c.write_fails_at_reply {
-        let mut script = vec![crate::io::port::WriteStep::Accept(usize::MAX); k as usize];
-        script.push(crate::io::port::WriteStep::Error(io::ErrorKind::BrokenPipe));
-        pstate.write_script = script;
-    }
     let port = TestPort::with_state(pstate);
     let h = port.handle();
     let seen = Rc::new(RefCell::new(vec![]));
@@ -492,6 +487,20 @@ pub fn check_bridge_session(c: &BridgeSession, st: &mut Stats) -> Result<(), Str
         behaviours.borrow_mut().clear();
         behaviours.borrow_mut().push_back(behaviour.clone());
         let seen_before = seen.borrow().len();
+        {
+            // the refusal is tied to the reply, not to a write-call index: however many write calls the bridge needs for
+            // one reply (no statement fixes that number), all of them fail while reply number k is due
+            let refuse_now = matches!(behaviour, BusBehaviour::Reply(_)) && c.write_fails_at_reply.map(|k| k as usize) == Some(replies_written);
+            let mut s = h.borrow_mut();
+            let calls = s.write_calls.len();
+            s.write_script = if refuse_now {
+                let mut v = vec![crate::io::port::WriteStep::Accept(usize::MAX); calls];
+                v.extend(std::iter::repeat(crate::io::port::WriteStep::Error(io::ErrorKind::BrokenPipe)).take(4096));
+                v
+            } else {
+                vec![]
+            };
+        }
         let r = catch(|| odk.process_message()).map_err(|p| format!("line {i}: Odk::process_message panicked: {p}"))?;
         st.eval();
         let line = &tape[start..ends[i]];
